@@ -153,7 +153,7 @@ for _m in ('sin', 'cos', 'tan', 'asin', 'acos', 'atan', 'atan2', 'abs', 'floor',
 
 
 class Engine:
-    def __init__(self, facts, opaque=(), max_depth=40, loop_bound=6, hooks=None):
+    def __init__(self, facts, opaque=(), max_depth=40, loop_bound=40, hooks=None):
         self.facts = facts
         self.opaque = set(opaque)
         self.max_depth = max_depth
@@ -170,6 +170,7 @@ class Engine:
         self.interest = set()    # callee names whose calls are logged
         self.step_limit = 30_000_000
         self.use_cache = True
+        self.dropped = 0
         self.discr_hint = {}
         self.debug_cache = False
         self.call_cache = {}
@@ -709,6 +710,8 @@ class Engine:
             return tree
         cond, children = tree[1], tree[2]
         live = {v: t for v, t in children.items() if t[0] != 'end'}
+        if len(live) < len(children):
+            self.dropped += 1
         if not live:
             kinds = {t[1] for t in children.values()}
             return ('end', 'panic' if kinds == {'panic'} else sorted(kinds)[0], None)
@@ -769,21 +772,27 @@ class Engine:
         m = s0.clone()
         for r in dead:
             m.mem.pop(r, None)
+        # branch-specific values are first simplified under their own branch's
+        # assumptions (which are dropped from the joined state)
+        common = {}
+        for k, v in s0.asm.items():
+            if all(k in s.asm and s.asm[k] == v for s in states[1:]):
+                common[k] = v
+        common.pop(cond, None)
+        own = []
+        for _, t in vals:
+            own.append({k: v for k, v in t[1].asm.items() if k not in common})
+        memos = [{} for _ in vals]
         for r in diff:
-            m.mem[r] = self.merge_values(cond, [(v, t[1].mem.get(r, UN)) for v, t in vals])
-        m.ret = self.merge_values(cond, [(v, t[1].ret) for v, t in vals])
+            m.mem[r] = self.merge_values(cond, [(v, specialise(t[1].mem.get(r, UN), own[i], memos[i]))
+                                                for i, (v, t) in enumerate(vals)])
+        m.ret = self.merge_values(cond, [(v, specialise(t[1].ret, own[i], memos[i])) for i, (v, t) in enumerate(vals)])
         # loop bookkeeping: keep the union of what the joined paths have seen
         for i, f in enumerate(m.frames):
             for s in states[1:]:
                 for h, seen in s.frames[i].loops.items():
                     if h not in f.loops:
                         f.loops[h] = list(seen)
-        # keep only assumptions common to all
-        common = {}
-        for k, v in s0.asm.items():
-            if all(k in s.asm and s.asm[k] == v for s in states[1:]):
-                common[k] = v
-        common.pop(cond, None)
         m.asm = common
         m.nfid = max(s.nfid for s in states)
         m.ntmp = max(s.ntmp for s in states)
@@ -848,46 +857,42 @@ class Engine:
         return (fr.body.path, best) if best is not None else None
 
     def at_loop_header(self, st, fr):
+        """Loops are first iterated concretely (iterations that take no
+        data-dependent decision); as soon as an iteration forked on a free
+        condition, the loop-variant scalars are abstracted to `loopval` terms
+        and re-arrival with an equal abstract state is pruned."""
         info = self.loops_of(fr.body)
         if fr.block not in info:
             return
         blocks, assigned = info[fr.block]
         lid = (fr.body.path, fr.block)
-        first = fr.block not in fr.loops
-        for l in sorted(assigned):
-            root = ('L', fr.fid, l)
-            if root not in st.mem:
-                continue
-            ty = fr.body.locals[l]
-            if ty.get('prim') and ty['s'] in SCALARS:
-                cur = st.mem[root]
-                if first:
-                    if not (isinstance(cur, tuple) and cur[0] == 'loopval' and cur[1] == (lid, l)):
-                        st.mem[root] = ('loopval', (lid, l), cur)
-                else:
-                    init = fr.loops[fr.block][0][1].get(l)
-                    st.mem[root] = ('loopval', (lid, l), init)
-        sig = self.signature(st)
-        if first:
-            inits = {}
-            for l in assigned:
-                v = st.mem.get(('L', fr.fid, l))
-                if isinstance(v, tuple) and v and v[0] == 'loopval':
-                    inits[l] = v[2]
-            fr.loops[fr.block] = [(sig, inits)]
+        scal = [l for l in sorted(assigned) if fr.body.locals[l].get('prim') and fr.body.locals[l]['s'] in SCALARS]
+        if fr.block not in fr.loops:
+            inits = {l: st.mem[('L', fr.fid, l)] for l in scal if ('L', fr.fid, l) in st.mem}
+            fr.loops[fr.block] = [(self.signature(st), inits, frozenset(st.asm), False)]
             return
         seen = fr.loops[fr.block]
-        for (s, _) in seen:
-            if s == sig:
+        inits = seen[0][1]
+        symbolic = seen[-1][3] or bool(set(st.asm) - seen[-1][2]) or len(seen) > 24
+        if symbolic:
+            for l in scal:
+                root = ('L', fr.fid, l)
+                if root in st.mem:
+                    cur = st.mem[root]
+                    if cur != inits.get(l, cur) or (isinstance(cur, tuple) and cur and cur[0] == 'loopval'):
+                        st.mem[root] = ('loopval', (lid, l), inits.get(l))
+            # conditions on loop-variant terms do not carry over to the next iteration
+            for c in [c for c in st.asm if mentions_loop(c, lid)]:
+                del st.asm[c]
+        sig = self.signature(st)
+        for rec in seen:
+            if rec[0] == sig:
                 raise PathEnd('loop-subsumed')
         if len(seen) >= self.loop_bound:
             self.incomplete.append(('loop-bound', fr.body.path, fr.block))
             self.event(st, 'incomplete', what='loop bound reached', fn=fr.body.path)
             raise PathEnd('loop-bound')
-        seen.append((sig, seen[0][1]))
-        # conditions on loop-variant terms do not carry over to the next iteration
-        for c in [c for c in st.asm if mentions_loop(c, lid)]:
-            del st.asm[c]
+        seen.append((sig, inits, frozenset(st.asm), symbolic))
 
     def signature(self, st):
         """abstract state at a loop header: memory reachable from the live
@@ -1209,10 +1214,11 @@ class Engine:
                     st2 = st.clone()
                     st2.asm = {}
                     nlog = len(self.log)
+                    ndrop = self.dropped
                     self.push_call(st2, body, args, dest, target, None, site)
                     tr = self.run_until(st2, depth)
                     hit = None
-                    if tr[0] == 'leaf' and not tr[1].asm and tr[1].pending is None:
+                    if tr[0] == 'leaf' and not tr[1].asm and tr[1].pending is None and self.dropped == ndrop:
                         ls = tr[1]
                         same = all(ls.mem.get(k) == v for k, v in snap.items())
                         if same and pure_data(ls.ret, snap):
@@ -1223,6 +1229,11 @@ class Engine:
                         del self.log[nlog:]
                         if self.debug_cache:
                             print('NOCACHE', name, tr[0], (tr[1].asm if tr[0] == 'leaf' else ''))
+                    else:
+                        for e in self.log[nlog:]:
+                            a = dict(st.asm)
+                            a.update(e['asm'])
+                            e['asm'] = a
                     self.call_cache[key] = hit
                 if hit is not None:
                     self.cache_hits += 1
@@ -1336,6 +1347,54 @@ def mentions_loop(t, lid):
                 return True
             st.extend(x)
     return False
+
+
+def cond_value(c, asm):
+    """truth value of condition term c under assumptions, or None"""
+    if c in asm:
+        return bool(asm[c]) if not (isinstance(c, tuple) and c and c[0] == 'discr') else None
+    if isinstance(c, tuple) and c:
+        if c[0] == 'un' and c[1] == 'Not':
+            r = cond_value(c[2], asm)
+            return None if r is None else not r
+        if c[0] == 'bin' and c[1] in ('Eq', 'Ne') and is_const(c[3]) and c[2] in asm:
+            r = asm[c[2]] == cval(c[3])
+            return r if c[1] == 'Eq' else not r
+    return None
+
+
+def specialise(v, asm, memo=None):
+    """resolve ite sub-terms whose condition is decided by `asm`"""
+    if not asm or not isinstance(v, tuple) or not v:
+        return v
+    if memo is None:
+        memo = {}
+    k = id(v)
+    if k in memo:
+        return memo[k][1]
+    if v[0] == 'c':
+        return v
+    if v[0] == 'ite':
+        d = cond_value(v[1], asm)
+        if d is True:
+            r = specialise(v[2], asm, memo)
+        elif d is False:
+            r = specialise(v[3], asm, memo)
+        else:
+            a = specialise(v[2], asm, memo)
+            b = specialise(v[3], asm, memo)
+            r = v if (a is v[2] and b is v[3]) else ite(v[1], a, b)
+    else:
+        ch = False
+        out = []
+        for x in v:
+            y = specialise(x, asm, memo) if isinstance(x, tuple) else x
+            if y is not x:
+                ch = True
+            out.append(y)
+        r = tuple(out) if ch else v
+    memo[k] = (v, r)
+    return r
 
 
 def pure_data(v, stable_roots=()):
